@@ -144,7 +144,7 @@ HasAssign      == Kind \in {"Data3D", "Force", "FPCal", "FPData"}
 HasBulk        == Kind = "FPCal"
 HasLookup      == Kind \in IndexKinds
 BadItems       == Kind \in LengthKinds
-HasContent     == Edits /\ Kind \in {"EMG", "Data3D", "Force", "FPData", "Events"}   \* items whose content can be edited in place
+HasContent     == Edits /\ Kind \in {"EMG", "Data3D", "Force", "FPData", "Events", "FPCal", "Optical"}   \* items whose content can be edited in place
 
 Calls ==
   {CallConstruct(i, ls) : i \in 1..NI, ls \in (IF CtorTakesItems THEN LabelSeqs(2) ELSE {<<>>})}
@@ -199,8 +199,8 @@ Poke(i)               == Ex(i) /\ Act(CallPoke(i))
 AssignFrom(i, j)      == Ex(i) /\ Ex(j) /\ i # j /\ Kind \in {"Data3D", "Force"} /\ Act(CallAssignFrom(i, j))
 
 BulkRemove(i, ks)     == Ex(i) /\ HasBulk /\ Act(CallBulkRemove(i, ks))
-AssignCs == {<<>>, <<0, 2>>, <<2, 2>>, <<5, 0>>}
-BulkCs   == {<<>>, <<0, 2>>, <<5, 5>>}
+AssignCs == {<<>>, <<0, 2>>, <<2, 2>>, <<1, 0>>}
+BulkCs   == {<<>>, <<0, 2>>, <<2, 2>>, <<1, 0>>}
 Next ==
   \/ Begin
   \/ \E i \in 1..NI :
